@@ -33,6 +33,8 @@ type process struct {
 	pid      *PID
 	restarts int32
 	mbuffer  []Envelope
+	// set by cleanup; a cleaned up process must not open its inbox again.
+	stopped bool
 }
 
 func newProcess(e *Engine, opts Opts) *process {
@@ -142,6 +144,11 @@ func (p *process) Start() {
 		p.Invoke(p.mbuffer)
 		p.mbuffer = nil
 	}
+	// The buffered messages may have contained a poison pill, or exhausted the
+	// restart budget: the process is gone then and its inbox stays closed.
+	if p.stopped {
+		return
+	}
 
 	p.inbox.Start(p)
 }
@@ -211,6 +218,7 @@ func (p *process) cleanup(cancel context.CancelFunc) {
 		}
 	}
 
+	p.stopped = true
 	p.inbox.Stop()
 	p.context.engine.Registry.Remove(p.pid)
 	p.context.message = Stopped{}
